@@ -256,11 +256,11 @@ Section Laws.
     - destruct (svc_read s name pw) as [k1| |] eqn:Er; try (intros [= <- <-]; now left).
       apply svc_read_ok in Er as (p & d0 & Ep & Ec & El & Hd). rewrite Ep.
       destruct (decrypt_key json pw) as [k| |] eqn:Ed; try (intros [= <- <-]; now left).
-      destruct (encrypt_key k pw salt iv) as [d| |] eqn:Ee; intros [= <- <-]; try now left.
+      destruct (encrypt_key k pw salt iv) as [d| |] eqn:Ee; [destruct (bak_ok p)|idtac|idtac]; intros [= <- <-]; try now left.
       right. exists p, d, k, pw, salt, iv. cbn. rewrite Ep. repeat split; auto. now apply decrypt_key_len in Ed.
     - destruct (svc_read s name pw) as [k1| |] eqn:Er; try (intros [= <- <-]; now left).
       apply svc_read_ok in Er as (p & d0 & Ep & Ec & El & Hd). rewrite Ep.
-      destruct (encrypt_key k0 pw salt iv) as [d| |] eqn:Ee; intros [= <- <-]; try now left.
+      destruct (encrypt_key k0 pw salt iv) as [d| |] eqn:Ee; [destruct (bak_ok p)|idtac|idtac]; intros [= <- <-]; try now left.
       right. exists p, d, k0, pw, salt, iv. destruct Hwf as [Hk Hiv]. cbn. rewrite Ep. repeat split; auto.
   Qed.
 
@@ -369,10 +369,12 @@ Section Laws.
       destruct (svc_read s name pw) as [k2| |] eqn:Er; try discriminate. rewrite Ep in Hs.
       destruct (decrypt_key json pw) as [k3| |] eqn:Ed; try discriminate.
       destruct (encrypt_key k3 pw salt iv) as [d| |] eqn:Ee; try discriminate.
+      destruct (bak_ok p); [|discriminate].
       injection Hs as <-. exists d, k3, salt, iv. rewrite lookup_write_same. apply decrypt_key_len in Ed. auto.
     - destruct x; try contradiction. destruct Hw as (Ep & ->).
       destruct (svc_read s name pw) as [k2| |] eqn:Er; try discriminate. rewrite Ep in Hs.
       destruct (encrypt_key k0 pw salt iv) as [d| |] eqn:Ee; try discriminate.
+      destruct (bak_ok p); [|discriminate].
       injection Hs as <-. exists d, k0, salt, iv. rewrite lookup_write_same. destruct Hwf. auto.
   Qed.
 
@@ -414,11 +416,12 @@ Section Laws.
     snd (step (fst (run [] h)) (OExport n1 pw salt iv)) = OutExport d ->
     Forall wf_op h' -> length iv' = 16%nat ->
     (exists k2, svc_read (fst (run [] h')) n2 pw = Ok k2) ->
+    (forall p, key_filename n2 = Some p -> bak_ok p = true) ->
     exists k s2, svc_read (fst (run [] h)) n1 pw = Ok k /\
       step (fst (run [] h')) (OImport n2 pw d salt' iv') = (s2, OutDone) /\
       forall nk'' salt'' iv'', step s2 (OKey n2 pw nk'' salt'' iv'') = (s2, OutKey k false).
   Proof.
-    intros Hh Hiv Hx Hh' Hiv' [k2 Hr2].
+    intros Hh Hiv Hx Hh' Hiv' [k2 Hr2] Hbak.
     cbn [Model.step] in Hx. destruct (svc_read (fst (run [] h)) n1 pw) as [k| |] eqn:Er; try discriminate.
     destruct (encrypt_key k pw salt iv) as [d0| |] eqn:Ee; cbn in Hx; try discriminate. injection Hx as ->.
     pose proof Er as Er0. apply svc_read_ok in Er as (p1 & d1 & _ & _ & _ & Hd1).
@@ -428,7 +431,7 @@ Section Laws.
     pose proof (Inv_run h' [] Inv_nil Hh') as HI'.
     pose proof Hr2 as Hr2'. apply svc_read_ok in Hr2' as (p2 & d3 & Ep2 & Hc2 & Hl2 & _).
     exists k, (write (fst (run [] h')) p2 d2). split; [reflexivity|]. split.
-    - cbn [Model.step]. now rewrite Hr2, Ep2, Hdd, Ee2.
+    - cbn [Model.step]. now rewrite Hr2, Ep2, Hdd, Ee2, (Hbak p2 Ep2).
     - intros nk'' salt'' iv''.
       assert (HI2 : Inv (write (fst (run [] h')) p2 d2)).
       { apply Inv_write; auto. now exists k, pw, salt', iv'. }
